@@ -18,7 +18,7 @@
 
 use poulpy_hal::{
     api::{ModuleLogN, ScratchAvailable, VecZnxNormalizeTmpBytes},
-    layouts::{Backend, CyclotomicOrder, GaloisElement, Module, Scratch, VecZnx, galois_element},
+    layouts::{Backend, CyclotomicOrder, GaloisElement, Module, Scratch, galois_element},
 };
 
 pub use crate::api::GLWETrace;
@@ -69,23 +69,30 @@ where
         assert_eq!(self.n() as u32, a_infos.n());
         assert_eq!(self.n() as u32, key_infos.n());
 
-        let lvl_0: usize = self.glwe_automorphism_tmp_bytes(res_infos, a_infos, key_infos);
-        if a_infos.base2k() != key_infos.base2k() {
-            let lvl_1: usize = VecZnx::bytes_of(
-                self.n(),
-                (key_infos.rank_out() + 1).into(),
-                res_infos.max_k().min(a_infos.max_k()).div_ceil(key_infos.base2k()) as usize,
-            ) + self.vec_znx_normalize_tmp_bytes();
-            return lvl_0 + lvl_1;
-        }
-
-        let lvl_1: usize = if res_infos.max_k() > a_infos.max_k() {
-            GLWE::<Vec<u8>>::bytes_of_from_infos(res_infos)
-        } else {
-            GLWE::<Vec<u8>>::bytes_of_from_infos(a_infos)
+        // One temporary GLWE in the radix of the keys, at the precision of the larger operand: the `tmp` of
+        // glwe_trace, resp. the `res_conv` of a cross-radix glwe_trace_assign (called with a_infos = res_infos).
+        let tmp_infos: GLWELayout = GLWELayout {
+            n: res_infos.n(),
+            base2k: key_infos.base2k(),
+            k: a_infos.max_k().max(res_infos.max_k()),
+            rank: res_infos.rank(),
         };
+        let lvl_0: usize = GLWE::<Vec<u8>>::bytes_of_from_infos(&tmp_infos);
+        let lvl_1: usize = self
+            .glwe_normalize_tmp_bytes()
+            .max(self.glwe_trace_assign_same_radix_tmp_bytes(&tmp_infos, key_infos));
 
         lvl_0 + lvl_1
+    }
+
+    /// Scratch needed by the rsh + automorphism_add loop of glwe_trace_assign once `res` is in the radix of the keys.
+    fn glwe_trace_assign_same_radix_tmp_bytes<R, K>(&self, res_infos: &R, key_infos: &K) -> usize
+    where
+        R: GLWEInfos,
+        K: GGLWEInfos,
+    {
+        self.glwe_shift_tmp_bytes()
+            .max(self.glwe_automorphism_tmp_bytes(res_infos, res_infos, key_infos))
     }
 
     fn glwe_trace_default<R, A, K, H>(&self, res: &mut R, skip: usize, a: &A, keys: &H, scratch: &mut Scratch<BE>)
@@ -143,14 +150,13 @@ where
         assert!(skip <= log_n);
         assert_eq!(ksk_infos.rank_in(), res.rank());
         assert_eq!(ksk_infos.rank_out(), res.rank());
-        assert!(
-            scratch.available() >= self.glwe_trace_tmp_bytes_default(res, res, ksk_infos),
-            "scratch.available(): {} < GLWETrace::glwe_trace_tmp_bytes: {}",
-            scratch.available(),
-            self.glwe_trace_tmp_bytes_default(res, res, ksk_infos)
-        );
-
         if res.base2k() != ksk_infos.base2k() {
+            assert!(
+                scratch.available() >= self.glwe_trace_tmp_bytes_default(res, res, ksk_infos),
+                "scratch.available(): {} < GLWETrace::glwe_trace_tmp_bytes: {}",
+                scratch.available(),
+                self.glwe_trace_tmp_bytes_default(res, res, ksk_infos)
+            );
             let (mut res_conv, scratch_1) = scratch.take_glwe(&GLWELayout {
                 n: self.n().into(),
                 base2k: ksk_infos.base2k(),
@@ -161,6 +167,12 @@ where
             self.glwe_trace_assign_default(&mut res_conv, skip, keys, scratch_1);
             self.glwe_normalize(res, &res_conv, scratch_1);
         } else {
+            assert!(
+                scratch.available() >= self.glwe_trace_assign_same_radix_tmp_bytes(res, ksk_infos),
+                "scratch.available(): {} < GLWETrace::glwe_trace_assign (same radix): {}",
+                scratch.available(),
+                self.glwe_trace_assign_same_radix_tmp_bytes(res, ksk_infos)
+            );
             for i in skip..log_n {
                 self.glwe_rsh(1, res, scratch);
 
